@@ -101,7 +101,8 @@ def _run_task(args):
     # replay each distinct counterexample against the real code without proxies
     seen = set()
     for v in ex.violations:
-        sig = o.classify(v) if o.classify else v['what'].split(' @')[0][:80]
+        try: sig = o.classify(v) if o.classify else v['what'].split(' @')[0][:80]
+        except Exception: sig = v['what'].split(' @')[0][:80]      # a failing classifier must never hide a counterexample
         key = (sig,)
         if key in seen: continue
         seen.add(key)
